@@ -3,13 +3,13 @@
 package main
 
 import (
-	"time"
 	"encoding/binary"
 	"encoding/hex"
 	"fmt"
 	"sort"
 	"sync"
 	"syscall"
+	"time"
 	"unsafe"
 
 	gtp5gnl "github.com/free5gc/go-gtp5gnl"
